@@ -316,3 +316,216 @@ Print Assumptions C07_system_answered_prompt_closes.
 Print Assumptions C07_system_executed_arrived_while_open.
 Print Assumptions C07_system_decoys_discarded.
 Print Assumptions C07_system_forwarded_seen_open.
+
+(** ================= the tie of the two models to the REGENERATED code
+    Gen/PromptFuns.v (translate/prompt_funs.py, fail closed) holds the statement trees of the
+    functions of /repo the command path consists of, regenerated at every check; Prompt/Interp.v
+    is their small-step semantics; Prompt/Tie.v (child) and Prompt/TieSys.v (system, main
+    process) drive it by the labels of Prompt/Model.v / System.v.  Everything below is about
+    [itrace] / [ihist] / [ifinal] (child) and [istrace] / [ishist] / [isfinal] (system): what
+    the interpreter of the regenerated code does. *)
+From NL Require Import Prompt.Interp Prompt.Tie Prompt.TieSys.
+
+(** THE TIE, child level: for EVERY label sequence the regenerated code and Prompt/Model.v
+    produce the same output at every label and end in related states (simulation, by induction
+    over the label list) *)
+Theorem C07_tie_simulation : forall ls, itrace ls = map some_out (trace ls) /\ R (ifinal ls) (final ls).
+Proof. exact sim. Qed.
+
+Theorem C07_tie_same_history : forall ls,
+  ihist ls = trace ls /\ map fst (itrace ls) = ls /\ forall e, In e (itrace ls) -> snd e <> None.
+Proof. exact tie_same_history. Qed.
+
+(** same executed-command log, same queues (queue_in and every trace's), same counter and open prompts *)
+Theorem C07_tie_same_executed : forall ls, execs (ihist ls) = execs (trace ls).
+Proof. exact tie_same_executed. Qed.
+
+Theorem C07_tie_same_queues : forall ls,
+  h_in (i_sh (ifinal ls)) = s_in (final ls) /\ forall t, iqueue (ifinal ls) t = s_map (final ls) t.
+Proof. exact tie_same_queues. Qed.
+
+Theorem C07_tie_same_prompts : forall ls t,
+  h_ctr (i_sh (ifinal ls)) = s_ctr (final ls) /\
+  match i_threads (ifinal ls) t with Some (_, p) => s_open (final ls) t = Some p | None => s_open (final ls) t = None end.
+Proof. exact tie_same_prompts. Qed.
+
+(** hence the child-level theorems above hold of the regenerated code *)
+Theorem C07_tie_exactly_once : forall ls, NoDup (exec_ids (ihist ls)) /\ NoDup (exec_prompts (ihist ls)).
+Proof. exact tie_exactly_once. Qed.
+
+Theorem C07_tie_exactly_once_addressed : forall ls pre t p i c post,
+  ihist ls = pre ++ (Take t, OExec p i c) :: post ->
+  nth_error (sends (ihist ls)) i = Some c /\ nth_error (sends pre) i = Some c /\
+  c_trace c = t /\ c_prompt c = p /\ open_in pre t = Some p /\ In i (relayed pre).
+Proof. exact tie_exactly_once_addressed. Qed.
+
+Theorem C07_tie_no_assertion_failure : forall ls l i, ~ In (l, OAssert i) (ihist ls).
+Proof. exact tie_no_assertion_failure. Qed.
+
+Theorem C07_tie_decoys_discarded_partial : forall ls i c,
+  nth_error (sends (ihist ls)) i = Some c -> decoy_after_arrival (ihist ls) i c -> ~ In i (exec_ids (ihist ls)).
+Proof. exact tie_decoys_discarded_partial. Qed.
+
+Theorem C07_tie_already_answered_discarded : forall ls pre c i post,
+  ihist ls = pre ++ (Send c, OSent i) :: post -> In (c_prompt c) (exec_prompts pre) -> ~ In i (exec_ids (ihist ls)).
+Proof. exact tie_already_answered_discarded. Qed.
+
+Theorem C07_tie_other_trace_discarded : forall ls i c t',
+  nth_error (sends (ihist ls)) i = Some c -> In (t', c_prompt c) (opens (ihist ls)) -> t' <> c_trace c ->
+  ~ In i (exec_ids (ihist ls)).
+Proof. exact tie_other_trace_discarded. Qed.
+
+Theorem C07_tie_nonexistent_discarded : forall ls i c,
+  nth_error (sends (ihist ls)) i = Some c -> ~ In (c_trace c, c_prompt c) (opens (ihist ls)) -> ~ In i (exec_ids (ihist ls)).
+Proof. exact tie_nonexistent_discarded. Qed.
+
+(** direct corollaries on the regenerated code.
+    (1) relay_commands.fn puts a command only on the queue object the map holds under the
+    command's OWN trace number (and under no other); for a number the map does not hold nothing
+    is put (KeyError; try_again_on_error calls fn again: the thread is back at its get, the map
+    is still a plain dict) *)
+Theorem C07_tie_put_on_own_queue : forall ls,
+  let s := ifinal ls in
+  match resume FUEL (i_sh s) (i_relay s) with
+  | RBlocked => h_in (i_sh s) = []
+  | RAtGet sh' th' evs =>
+      t_k th' = K_relay /\ h_kind sh' = DPlain /\
+      exists i c r, h_in (i_sh s) = (i, c) :: r /\
+        match h_dict (i_sh s) (c_trace c) with
+        | Some id => evs = [IGot i c; IPut id i c] /\ (forall t, h_dict (i_sh s) t = Some id -> t = c_trace c)
+        | None => evs = [IGot i c]
+        end
+  | _ => False
+  end.
+Proof. exact tie_put_on_own_queue. Qed.
+
+(** the map holds a queue exactly for the live trace numbers (created by on_start_trace, deleted by
+    on_end_trace; nothing else creates one), distinct objects for distinct numbers *)
+Theorem C07_tie_queue_iff_live : forall ls t,
+  (i_live (ifinal ls) t = true <-> iqueue (ifinal ls) t <> None) /\
+  forall t' id, h_dict (i_sh (ifinal ls)) t = Some id -> h_dict (i_sh (ifinal ls)) t' = Some id -> t = t'.
+Proof. exact tie_queue_iff_live. Qed.
+
+(** (2) a command taken while prompt p is open is executed iff its prompt number EQUALS p
+    (by value), else discarded with the prompt still open *)
+Theorem C07_tie_executed_iff_equal : forall ls t th p i c r,
+  i_threads (ifinal ls) t = Some (th, p) -> iqueue (ifinal ls) t = Some ((i, c) :: r) ->
+  snd (istep (ifinal ls) (Take t)) = Some (if Z.eqb (c_prompt c) p then OExec p i c else ODiscard p i c) /\
+  (snd (istep (ifinal ls) (Take t)) = Some (OExec p i c) <-> c_prompt c = p).
+Proof. exact tie_executed_iff_equal. Qed.
+
+Theorem C07_tie_prompt_numbers_unique : forall ls, NoDup (map snd (opens (ihist ls))).
+Proof. exact tie_prompt_numbers_unique. Qed.
+
+(** THE TIE, system level: send_pdb_command -> Imp.send_command -> CommandSender.send_command
+    [-> SendCommand._send_command], the cases of on_event_in_process, and the child, against
+    Prompt/System.v, for EVERY sequence of system labels *)
+Theorem C07_tie_system_simulation : forall sls, istrace sls = map ssome (strace sls) /\ RS (isfinal sls) (sfinal sls).
+Proof. exact ssim. Qed.
+
+Theorem C07_tie_system_same_history : forall sls, ishist sls = strace sls /\ forall e, In e (istrace sls) -> snd e <> None.
+Proof. exact tie_system_same_history. Qed.
+
+Theorem C07_tie_system_same_state : forall sls,
+  si_evq (isfinal sls) = evq (sfinal sls) /\ h_open (i_sh (si_ch (isfinal sls))) = mopen (sfinal sls) /\
+  h_in (i_sh (si_ch (isfinal sls))) = s_in (ch (sfinal sls)) /\
+  forall t, iqueue (si_ch (isfinal sls)) t = s_map (ch (sfinal sls)) t.
+Proof. exact tie_system_same_state. Qed.
+
+Theorem C07_tie_system_decoys_discarded : forall sls pre c o post,
+  ishist sls = pre ++ (SApi c, o) :: post ->
+  forall l1, pre = ishist l1 ->
+  open_in (ctrace l1) (c_trace c) <> Some (c_prompt c) ->
+  o = SDropped \/ exists i, o = SForwarded i /\ ~ In i (exec_ids (ctrace sls)).
+Proof. exact tie_system_decoys_discarded. Qed.
+
+Theorem C07_tie_system_forwarded_seen_open : forall sls pre c i post,
+  ishist sls = pre ++ (SApi c, SForwarded i) :: post -> In (c_trace c, c_prompt c) (seen_open pre).
+Proof. exact tie_system_forwarded_seen_open. Qed.
+
+(** (3) the main process over SEVERAL runs of one Nextline object (labels: an event is handled,
+    RunSession.run is entered, an API call): context.open_prompts is, after every history, the set
+    computed from the history by "emptied at a run start, +pair at OnStartPrompt, -pair at
+    OnEndPrompt"; send_pdb_command forwards iff the pair is a member; and membership means:
+    started and not ended IN THE CURRENT RUN *)
+Theorem C07_tie_main_open_prompts : forall mls, h_open (mmfinal mls) = spec_open mls.
+Proof. exact main_open_prompts. Qed.
+
+Theorem C07_tie_main_forwards_iff_member : forall mls c,
+  let sh := mmfinal mls in
+  if mem (c_trace c, c_prompt c) (spec_open mls)
+  then snd (mmstep sh (MApi c)) = Some (MForwarded (h_nsent sh)) /\ h_in (fst (mmstep sh (MApi c))) = h_in sh ++ [(h_nsent sh, c)]
+  else snd (mmstep sh (MApi c)) = Some MDropped /\ fst (mmstep sh (MApi c)) = sh.
+Proof. exact main_forwards_iff_member. Qed.
+
+Theorem C07_tie_main_set_exact : forall mls t p, In (t, p) (spec_open mls) <-> started_not_ended mls t p.
+Proof. exact spec_open_exact. Qed.
+
+Theorem C07_tie_main_forwards_iff_open_in_current_run : forall mls c,
+  snd (mmstep (mmfinal mls) (MApi c)) = Some (MForwarded (h_nsent (mmfinal mls))) <-> started_not_ended mls (c_trace c) (c_prompt c).
+Proof. exact main_forwards_iff_open_in_current_run. Qed.
+
+Theorem C07_tie_main_stale_pair_dropped : forall ls1 ls2 c,
+  ~ In (MEv (MStart (c_trace c) (c_prompt c))) ls2 ->
+  snd (mmstep (mmfinal (ls1 ++ MRunStart :: ls2)) (MApi c)) = Some MDropped.
+Proof. exact main_stale_pair_dropped. Qed.
+
+(** RunSession.run empties the set before it spawns the child; the queue the main process puts
+    commands on is the one handed to the child as its queue_in *)
+Theorem C07_tie_cleared_before_spawn :
+  existsb (fun s => match s with SSetClear (EAttr AOpenPrompts) => true | _ => false end) (before_spawn run_tracked) = true /\
+  existsb (fun s => match s with SSpawn => true | _ => false end) run_tracked = true.
+Proof. exact cleared_before_spawn. Qed.
+
+Theorem C07_tie_queue_in_wiring : session_in_pos = set_queues_in_pos.
+Proof. exact queue_in_wiring. Qed.
+
+(** non-vacuity: the interpreter runs the regenerated code through the examples above *)
+Example C07_tie_example_nonvacuous :
+  execs (ihist tie_ex_run) = [(2, 2, 3%nat, mkCmd 2 2 5); (1, 1, 5%nat, mkCmd 1 1 6)] /\
+  map snd (itrace [StartTrace 1; OpenPrompt 1; Send (mkCmd 2 1 7); Send (mkCmd 1 1 8); Relay; Relay; Take 1]) =
+    [Some OStarted; Some (OOpened 1); Some (OSent 0); Some (OSent 1); Some (ODropped 0); Some (ORelayed 1);
+     Some (OExec 1 1 (mkCmd 1 1 8))].
+Proof. exact tie_example. Qed.
+
+Example C07_tie_example_system : map snd (istrace ex_system) = map Some (map snd (strace ex_system)).
+Proof. vm_compute. reflexivity. Qed.
+
+Example C07_tie_example_main :
+  map (fun ls => snd (mmstep (mmfinal ls) (MApi (mkCmd 1 4 7))))
+    [[MRunStart; MEv (MStart 1 4)];
+     [MRunStart; MEv (MStart 1 4); MRunStart];
+     [MRunStart; MEv (MStart 1 4); MRunStart; MEv (MStart 1 3)];
+     [MRunStart; MEv (MStart 1 4); MRunStart; MEv (MStart 1 3); MEv (MEnd 1 3); MEv (MStart 1 4)];
+     [MRunStart; MEv (MStart 1 4); MEv (MEnd 1 4)]]
+  = [Some (MForwarded 0); Some MDropped; Some MDropped; Some (MForwarded 0); Some MDropped].
+Proof. exact main_example. Qed.
+
+Print Assumptions C07_tie_simulation.
+Print Assumptions C07_tie_same_history.
+Print Assumptions C07_tie_same_executed.
+Print Assumptions C07_tie_same_queues.
+Print Assumptions C07_tie_same_prompts.
+Print Assumptions C07_tie_exactly_once.
+Print Assumptions C07_tie_exactly_once_addressed.
+Print Assumptions C07_tie_no_assertion_failure.
+Print Assumptions C07_tie_decoys_discarded_partial.
+Print Assumptions C07_tie_already_answered_discarded.
+Print Assumptions C07_tie_other_trace_discarded.
+Print Assumptions C07_tie_nonexistent_discarded.
+Print Assumptions C07_tie_put_on_own_queue.
+Print Assumptions C07_tie_queue_iff_live.
+Print Assumptions C07_tie_executed_iff_equal.
+Print Assumptions C07_tie_prompt_numbers_unique.
+Print Assumptions C07_tie_system_simulation.
+Print Assumptions C07_tie_system_same_history.
+Print Assumptions C07_tie_system_same_state.
+Print Assumptions C07_tie_system_decoys_discarded.
+Print Assumptions C07_tie_system_forwarded_seen_open.
+Print Assumptions C07_tie_main_open_prompts.
+Print Assumptions C07_tie_main_forwards_iff_member.
+Print Assumptions C07_tie_main_set_exact.
+Print Assumptions C07_tie_main_forwards_iff_open_in_current_run.
+Print Assumptions C07_tie_main_stale_pair_dropped.
+Print Assumptions C07_tie_cleared_before_spawn.
+Print Assumptions C07_tie_queue_in_wiring.
